@@ -521,7 +521,13 @@ func Execute(sc *Scenario) *Result {
 		fail("SETUP", "SetSuccessThresholdSinks: %v", err)
 	}
 
+	// every other scenario's context is cancelled with a cause of the caller's (context.WithCancelCause): what Send
+	// reports is still the context's error
 	ctx, cancel := context.WithCancel(context.Background())
+	if len(sc.Pipes)%2 == 1 {
+		c2, cancelCause := context.WithCancelCause(context.Background())
+		ctx, cancel = c2, func() { cancelCause(errors.New("harness: the request was abandoned")) }
+	}
 	r.cancel = cancel
 	defer cancel()
 	if sc.Cancel.Mode == "before" {
